@@ -769,3 +769,84 @@ func defsOf(v ssa.Value) []def {
 	}
 	return []def{{v, nil, v.Pos()}}
 }
+
+// ---- natural loops --------------------------------------------------------------------
+
+type loop struct {
+	Head *ssa.BasicBlock
+	Body map[*ssa.BasicBlock]bool // includes Head
+}
+
+// loopsOf computes the natural loops of f (one per header; bodies of back edges
+// to the same header are merged).
+func loopsOf(f *ssa.Function) []*loop {
+	byHead := map[*ssa.BasicBlock]*loop{}
+	var order []*ssa.BasicBlock
+	for _, b := range f.Blocks {
+		for _, s := range b.Succs {
+			if s.Dominates(b) { // back edge b -> s
+				l := byHead[s]
+				if l == nil {
+					l = &loop{Head: s, Body: map[*ssa.BasicBlock]bool{s: true}}
+					byHead[s] = l
+					order = append(order, s)
+				}
+				stack := []*ssa.BasicBlock{b}
+				for len(stack) > 0 {
+					x := stack[len(stack)-1]
+					stack = stack[:len(stack)-1]
+					if l.Body[x] {
+						continue
+					}
+					l.Body[x] = true
+					stack = append(stack, x.Preds...)
+				}
+			}
+		}
+	}
+	var out []*loop
+	for _, h := range order {
+		out = append(out, byHead[h])
+	}
+	return out
+}
+
+// returnsConstBool reports whether block b ends in `return <const bool>` (single result).
+func returnsConstBool(b *ssa.BasicBlock) (val bool, ok bool) {
+	if len(b.Instrs) == 0 {
+		return false, false
+	}
+	r, isR := b.Instrs[len(b.Instrs)-1].(*ssa.Return)
+	if !isR || len(r.Results) != 1 {
+		return false, false
+	}
+	k, isK := r.Results[0].(*ssa.Const)
+	if !isK || k.Value == nil || k.Value.Kind() != constant.Bool {
+		return false, false
+	}
+	return constant.BoolVal(k.Value), true
+}
+
+func constBool(v ssa.Value) (bool, bool) {
+	k, isK := v.(*ssa.Const)
+	if !isK || k.Value == nil || k.Value.Kind() != constant.Bool {
+		return false, false
+	}
+	return constant.BoolVal(k.Value), true
+}
+
+// staticCalleeIs: call's static callee is the given function.
+func staticCalleeIs(i ssa.Instruction, f *ssa.Function) bool {
+	cc := callCommon(i)
+	return cc != nil && f != nil && cc.StaticCallee() == f
+}
+
+// factCallTo: some fact at block b is a call to function f with the given truth; returns the call.
+func factCallTo(b *ssa.BasicBlock, f *ssa.Function, truth bool) *ssa.Call {
+	for _, ft := range factsAt(b) {
+		if call, ok := ft.Cond.(*ssa.Call); ok && ft.Truth == truth && call.Call.StaticCallee() == f {
+			return call
+		}
+	}
+	return nil
+}
